@@ -11,8 +11,8 @@ RULE = ("Hypothesis generates harness-written trash contents (files, deep direct
         "symlinks, 1-5 entries over home and $topdir trash dirs) and a command: trash-restore "
         "(single / multiple indices; same-volume rename or cross-volume copy + delete), "
         "trash-empty, trash-empty DAYS, trash-rm PATTERN. A fault-free interposed run records "
-        "the N mutating operations; the command is then killed before operation k for EVERY k "
-        "in 1..N. Oracle on each post-crash disk: every payload under files/ that had a "
+        "the N mutating operations; the command is then killed (os._exit) before operation k for EVERY k "
+        "in 1..N and interrupted like Ctrl-C (KeyboardInterrupt right before / after operation k). Oracle on each post-crash disk: every payload under files/ that had a "
         ".trashinfo still has it; an entry being restored is complete in the trash or complete "
         "at its destination; untouched entries are intact. Then the SAME empty / rm command is "
         "re-run and must reach the fault-free final state; after a killed restore, trash-empty "
@@ -24,7 +24,7 @@ CMDS = ["restore1", "restore_multi", "restore_xdev", "empty", "empty_days", "rm"
 
 
 def examples(tier):
-    return 900 if tier == "quick" else 20000
+    return 500 if tier == "quick" else 12000
 
 
 @st.composite
@@ -33,7 +33,9 @@ def strategy_(draw, tier):
     return {"cmd": draw(st.sampled_from(CMDS)),
             "ents": [dict(kind=draw(st.sampled_from(["file", "file", "tree", "tree", "link", "empty"])),
                           where=draw(st.sampled_from(["home", "home", "top_alt", "top_sticky"])),
-                          old=draw(st.booleans()), name=draw(gen.names(simple=True)))
+                          old=draw(st.booleans()),
+                          name=draw(st.one_of(gen.names(simple=True), gen.names(simple=True),
+                                              st.sampled_from(["x.trashinfo", "a.trashinfo.d", "..."]))))
                      for _ in range(n)],
             "uid": draw(st.sampled_from([1000, 0])), "big": draw(st.booleans())}
 
@@ -97,16 +99,22 @@ def run_case(case):
     tags = dict(cmd=case["cmd"])
     out.classes += ["cmd:" + case["cmd"], "ops:%d" % (n // 10 * 10), "ref_exit:%d" % ref.code]
     had_info = {e["payload"]: e["info"] for e in es}
-    for k in range(1, n + 1):
+    kills = [("crash", k, None) for k in range(1, n + 1)] + \
+        [("sigint", k, w) for k in range(1, n + 1) for w in ("before", "after")]
+    for how, k, when in kills:
         sandbox.build_world(spec)
-        r = runner.run(spec, script, args, stdin=stdin, env=env, plan={"crash_at": k})
-        if r.code != 137:
-            out.fail("crash_not_delivered", "crash_at=%d exited %d" % (k, r.code), **tags)
-            break
+        if how == "crash":
+            r = runner.run(spec, script, args, stdin=stdin, env=env, plan={"crash_at": k})
+            if r.code != 137:
+                out.fail("crash_not_delivered", "crash_at=%d exited %d" % (k, r.code), **tags)
+                break
+        else:
+            r = runner.run(spec, script, args, stdin=stdin, env=env, plan={"interrupt": [k, when]})
         after = sandbox.snapshot()
         op = muts[k - 1][2]
-        what = "%s killed before op %d/%d (%s %s)" % (script, k, n, op, muts[k - 1][3][:1])
-        t = dict(tags, op=op)
+        what = "%s %s op %d/%d (%s %s)" % (script, "killed before" if how == "crash" else
+                                           "interrupted (SIGINT) " + when, k, n, op, muts[k - 1][3][:1])
+        t = dict(tags, op=op, kill=how)
         for e in es:
             pay_there = e["payload"] in after
             if pay_there and e["info"] not in after:
@@ -133,8 +141,9 @@ def run_case(case):
                 d = sorted(set(trash_view(rec)) ^ set(trash_view(final)))
                 out.fail("rerun_incomplete", "%s: re-running the command does not reach the "
                          "fault-free final state; differing: %s" % (what, d[:4]), **t)
-        out.classes.append("crash_before:" + op)
-        out.keys.append([case["cmd"], kinds, op, min(k * 4 // max(n, 1), 3)])
+        out.classes.append(("crash_before:" if how == "crash" else "sigint_%s:" % when) + op)
+        out.keys.append([case["cmd"], kinds, how if how == "crash" else "sigint_" + when, op,
+                         min(k * 4 // max(n, 1), 3)])
         if out.fails:
             break
     out.sample = {"cmd": [script] + args, "entries": [[e["kind"], e["orig"]] for e in es],
